@@ -24,15 +24,15 @@ def obs_invariants():
 
 # property -> what is run.  gated/free: (families, episodes quick, episodes thorough)
 PLAN = {
-    'C01': {'gated': (['basic', 'ctl', 'cancel', 'pool', 'batch', 'barrier', ('tune', 2), 'reject'], 80, 900), 'free': (['basic', 'ctl', 'pool'], 64, 1200), 'model': ['MC_core']},
-    'C02': {'gated': (['ctl', 'pool', 'basic', 'barrier', 'bind2', 'tune'], 84, 800), 'free': (['ctl', 'pool'], 64, 1200), 'model': ['MC_core']},
-    'C03': {'gated': (['basic', 'ctl', 'cancel', 'pool', 'barrier', 'batch', ('tune', 4), 'stop2'], 88, 1000), 'free': (['basic', 'ctl', 'pool', 'cancel', 'storm'], 80, 1500), 'model': ['MC_core']},
+    'C01': {'gated': (['basic', 'ctl', 'cancel', 'pool', 'batch', 'barrier', ('tune', 2), 'reject', 'wq'], 88, 1000), 'free': (['basic', 'ctl', 'pool'], 64, 1200), 'model': ['MC_core']},
+    'C02': {'gated': (['ctl', 'pool', 'basic', 'barrier', 'bind2', 'tune', 'wq'], 91, 900), 'free': (['ctl', 'pool'], 64, 1200), 'model': ['MC_core']},
+    'C03': {'gated': (['basic', 'ctl', 'cancel', 'pool', 'barrier', 'batch', ('tune', 4), 'stop2', 'wq'], 96, 1100), 'free': (['basic', 'ctl', 'pool', 'cancel', 'storm'], 80, 1500), 'model': ['MC_core']},
     'C05': {'gated': (['handle', 'basic', 'cancel', 'batch', 'reject'], 72, 800), 'free': (['handle', 'batch'], 64, 1200), 'model': ['MC_core']},
-    'C06': {'gated': (['barrier', 'ctl', 'cancel', 'stop2'], 72, 800), 'free': (['barrier', 'ctl'], 64, 1200), 'model': ['MC_core']},
+    'C06': {'gated': (['barrier', 'ctl', 'cancel', 'stop2', 'wq'], 80, 900), 'free': (['barrier', 'ctl'], 64, 1200), 'model': ['MC_core']},
     'C07': {'gated': (['handle', 'basic', 'batch'], 64, 750), 'free': (['handle', 'batch', 'storm'], 72, 1500), 'model': []},
     'C08': {'gated': ([('batch', 5), 'reject'], 168, 1600), 'free': ([('batch', 3), 'storm'], 96, 2400), 'model': []},
-    'C09': {'gated': (['ctl', 'barrier', 'stop2'], 72, 800), 'free': (['ctl'], 64, 1200), 'model': ['MC_core']},
-    'C10': {'gated': (['cancel', 'batch', 'reject'], 72, 800), 'free': (['cancel'], 64, 1200), 'model': ['MC_core']},
+    'C09': {'gated': (['ctl', 'barrier', 'stop2', 'wq'], 80, 900), 'free': (['ctl'], 64, 1200), 'model': ['MC_core']},
+    'C10': {'gated': (['cancel', 'batch', 'reject', 'wq'], 80, 900), 'free': (['cancel'], 64, 1200), 'model': ['MC_core']},
     'C04': {'gated': (['basic', 'multi', 'barrier', 'cancel'], 64, 750), 'free': (['basic'], 48, 800), 'model': []},
     'C11': {'gated': ([('adapter', 3), 'distbind'], 72, 700), 'free': (['adapter'], 48, 800), 'model': [], 'crash': (40, 600)},
     'C12': {'gated': (['adapter'], 60, 625), 'free': (['adapter'], 48, 800), 'model': []},
@@ -40,8 +40,8 @@ PLAN = {
     'C14': {'gated': ([('life', 3), 'stop2', 'cycles'], 60, 480), 'free': (['life'], 48, 600), 'model': [], 'life_exhaustive': (3, 4)},
     'C15': {'gated': (['multi', 'multim'], 80, 750), 'free': (['multi'], 32, 600), 'model': ['MC_multi']},
     'C16': {'gated': (['basic', 'handle', 'cancel', 'batch'], 64, 750), 'free': (['basic', 'handle'], 96, 2400), 'model': ['MC_core']},
-    'C17': {'gated': (['basic', 'multi', 'cancel', 'ctl', 'reject', 'multim'], 84, 900), 'free': (['basic', 'multi'], 64, 1200), 'model': []},
-    'C18': {'gated': (['pool', 'ctl', ('tune', 2), 'stop2', ('life', 2), ('cycles', 2)], 90, 950), 'free': (['pool'], 64, 1200), 'model': []},
+    'C17': {'gated': (['basic', 'multi', 'cancel', 'ctl', 'reject', 'multim', 'wq'], 91, 1000), 'free': (['basic', 'multi'], 64, 1200), 'model': []},
+    'C18': {'gated': (['pool', 'ctl', ('tune', 2), 'stop2', ('life', 2), ('cycles', 2), 'wq'], 100, 1050), 'free': (['pool'], 64, 1200), 'model': []},
 }
 
 
